@@ -29,7 +29,7 @@ AR_HI = [1, 1.0, 2, 4.5, 3]
 
 @st.composite
 def netlist_model(draw, min_modules=1, max_modules=6, kinds=("soft", "soft", "hard", "fixed", "terminal"), max_nets=5,
-                  all_centres=False, units=None, allow_flip=True, regions_ok=True, soft_rect_overlap=True):
+                  all_centres=False, units=None, allow_flip=True, regions_ok=True, soft_rect_overlap=True, pads=False):
     unit = draw(st.sampled_from(units or UNITS))
     n = draw(_i(min_modules, max_modules))
     names = draw(st.lists(st.sampled_from(NAMES), min_size=n, max_size=n, unique=True))
@@ -81,7 +81,12 @@ def netlist_model(draw, min_modules=1, max_modules=6, kinds=("soft", "soft", "ha
             if kind == "hard" and allow_flip and stog and draw(_i(0, 2)) == 0:
                 m["flip"] = True
         else:  # terminal
-            if all_centres or draw(_i(0, 3)) != 0:
+            if pads and draw(_i(0, 3)) == 0:
+                # an I/O pad: a terminal with a shape (its centre is the one of its rectangles)
+                m["rects"] = [[ox, oy, ox + draw(_i(1, 3)), oy + draw(_i(1, 3)), None]]
+                if draw(st.booleans()):
+                    m["rects"].append([m["rects"][0][0], m["rects"][0][3], m["rects"][0][0] + 1, m["rects"][0][3] + 1, None])
+            elif all_centres or draw(_i(0, 3)) != 0:
                 m["center"] = [draw(_i(0, 80)), draw(_i(0, 80))]
                 m["tfixed"] = draw(_i(0, 3)) == 0
         if len(m["rects"]) == 1 and draw(_i(0, 2)) == 0:
@@ -93,7 +98,7 @@ def netlist_model(draw, min_modules=1, max_modules=6, kinds=("soft", "soft", "ha
             arity = draw(st.sampled_from([2, 2, 2, 3, 3, 4, 5, 6]))
             members = [names[draw(_i(0, n - 1))] for _ in range(arity)]
             nets.append(dict(m=members, w=draw(st.sampled_from(WEIGHTS))))
-    return dict(unit=unit, modules=mods, nets=nets)
+    return dict(unit=unit, modules=mods, nets=nets, nets_first=draw(_i(0, 3)) == 0)
 
 
 # ---- documents -----------------------------------------------------------------------------------
@@ -137,6 +142,8 @@ def module_doc(m, unit):
 def to_tree(model):
     mods = {m["name"]: module_doc(m, model["unit"]) for m in model["modules"]}
     nets = [list(e["m"]) + ([e["w"]] if e["w"] is not None else []) for e in model["nets"]]
+    if model.get("nets_first"):
+        return {"Nets": nets, "Modules": mods}  # (the two sections may come in either order)
     return {"Modules": mods, "Nets": nets}
 
 
@@ -164,10 +171,9 @@ def _flow(v):
 
 def to_text(model):
     t = to_tree(model)
-    s = "Modules: {\n"
-    s += ",\n".join("  %s: %s" % (_q(k), _flow(v)) for k, v in t["Modules"].items())
-    s += "\n}\nNets: %s\n" % _flow(t["Nets"])
-    return s
+    ms = "Modules: {\n" + ",\n".join("  %s: %s" % (_q(k), _flow(v)) for k, v in t["Modules"].items()) + "\n}\n"
+    ns = "Nets: %s\n" % _flow(t["Nets"])
+    return ns + ms if model.get("nets_first") else ms + ns
 
 
 # ---- expected (definition) --------------------------------------------------------------------------
